@@ -68,6 +68,21 @@ type BState struct {
 	heap Heap
 	pc   string
 	inv  map[string]string // package invariant name -> SMT text of the instance last known to hold on this path
+	prev map[string]string // the instance that held before that one (kept as a hypothesis too)
+}
+
+// setInv records a newly established instance, keeping the one it replaces.
+func (st *BState) setInv(name, t string) {
+	if st.inv[name] == t {
+		return
+	}
+	if st.prev == nil {
+		st.prev = map[string]string{}
+	}
+	if old := st.inv[name]; old != "" {
+		st.prev[name] = old
+	}
+	st.inv[name] = t
 }
 
 func cloneInv(m map[string]string) map[string]string {
@@ -480,6 +495,11 @@ func (g *Gen) addObl(st *BState, class, anchor, pos string, props []string, goal
 	for _, k := range sortedKeys(st.inv) {
 		o.Extra = append(o.Extra, st.inv[k]) // package invariant instances known to hold here
 	}
+	for _, k := range sortedKeys(st.prev) {
+		if st.prev[k] != st.inv[k] {
+			o.Extra = append(o.Extra, st.prev[k])
+		}
+	}
 	if g.wantProps(props) {
 		g.obls = append(g.obls, o)
 	}
@@ -763,6 +783,7 @@ func (g *Gen) processBlock(b *ssa.BasicBlock) {
 			st.pc = edges[0].cond
 			st.heap = g.out[edges[0].p].heap.clone()
 			st.inv = cloneInv(g.out[edges[0].p].inv)
+			st.prev = cloneInv(g.out[edges[0].p].prev)
 			for _, in := range b.Instrs {
 				if phi, ok := in.(*ssa.Phi); ok {
 					phiEntry[phi] = g.val(phi.Edges[edges[0].pidx])
@@ -822,7 +843,7 @@ func (g *Gen) processBlock(b *ssa.BasicBlock) {
 					}
 				}
 				if all {
-					st.inv[gi.Name] = g.invInstance(gi, g.fn, st.heap)
+					st.setInv(gi.Name, g.invInstance(gi, g.fn, st.heap))
 				}
 			}
 			for _, in := range b.Instrs {
@@ -1064,7 +1085,7 @@ func (g *Gen) backEdgeObls(b, h *ssa.BasicBlock, st *BState) {
 		return
 	}
 	cond := g.edgeCond(b, h)
-	est := &BState{heap: st.heap, pc: st.pc, inv: cloneInv(st.inv)}
+	est := &BState{heap: st.heap, pc: st.pc, inv: cloneInv(st.inv), prev: cloneInv(st.prev)}
 	if cond != "true" {
 		est.pc = g.namePC(fmt.Sprintf("(and %s %s)", st.pc, cond))
 	}
